@@ -452,8 +452,9 @@ class _FakeTime:
 class _FakeImpl:
     """stands for the replicated lock table behind ReplLockManager: records calls, answers as told"""
 
-    def __init__(self, answer, err=0):
+    def __init__(self, answer, err=0, inp=None):
         self.answer, self.err, self.calls, self.cb = answer, err, [], None
+        self.inp, self.held = inp, None     # inp given: what the local replica shows is a symbolic flag, drawn when first asked (S-C16-9)
 
     def acquire(self, lockID, clientID, t, callback=None, sync=False, timeout=None):
         self.calls.append(('acquire', lockID, clientID, t, sync))
@@ -466,12 +467,16 @@ class _FakeImpl:
 
     def isAcquired(self, lockID, clientID, t):
         self.calls.append(('isAcquired', lockID, clientID, t))
-        return False
+        if self.inp is None:
+            return False
+        if self.held is None:
+            self.held = self.inp.flag('locally_held')
+        return self.held
 
 
 @obligation('K2', props=('C16',), quick=[dict(mode='sync'), dict(mode='async')],
             stubs=('batteries.time=FakeTime (non-decreasing symbolic instants)', 'lock table behind ReplLockManager=_FakeImpl answering a symbolic result; manager built with object.__new__ (no thread)'),
-            bounds='attempt/acquire instants and auto-unlock time unbounded Reals')
+            bounds='attempt/acquire instants and auto-unlock time unbounded Reals; the local replica shows the lock as already held by the caller or not (symbolic, whenever the code asks)')
 def K2(inp, mode):
     """late acquisition: tryAcquire reports True only if the acquisition took at most half the auto-unlock time; a late
     success is reported as failure and a release for exactly that lock and client is issued."""
@@ -484,7 +489,7 @@ def K2(inp, mode):
     bt.time = _FakeTime([t0, t1])
     try:
         m = object.__new__(bt.ReplLockManager)
-        impl = _FakeImpl(answer)
+        impl = _FakeImpl(answer, inp=inp)
         m._ReplLockManager__lockImpl = impl
         m._ReplLockManager__selfID = 'me'
         m._ReplLockManager__autoUnlockTime = U
@@ -583,7 +588,7 @@ def B3(inp, k, mid):
 
 
 _B4_POOL = (0, 1, 8, 9, 16, 64, 'a', 'zz', (1, 2), frozenset({1}), frozenset({2}), frozenset({3}), frozenset({9}), frozenset({2, 3}),
-            frozenset([32, 3, 11]), frozenset([32, 2]))     # frozensets: '<' is only a partial order; the last two list their members in another order after a pickle round trip (repr differs)
+            frozenset([32, 3, 11]), frozenset([32, 2]), 1 + 2j, 3 + 4j)     # complex: hashable, same type, no '<' at all (S-C12-7). frozensets: '<' is only a partial order; the last two list their members in another order after a pickle round trip (repr differs)
 
 
 @obligation('B4', props=('C15', 'C01', 'C09'), quick=[dict(k=2), dict(k=3)], stubs=('none',),
@@ -600,7 +605,7 @@ def B4(inp, k):
         idx.append(j)
     elems = set(_B4_POOL[j] for j in idx)
     hist = bt.ReplSet()
-    universe = list(range(200)) + ['a', 'zz', 'q', (1, 2), (3, 4), frozenset({1}), frozenset({2}), frozenset({3}), frozenset({9}), frozenset({2, 3}), frozenset({7}), frozenset([32, 3, 11]), frozenset([32, 2])]
+    universe = list(range(200)) + ['a', 'zz', 'q', (1, 2), (3, 4), frozenset({1}), frozenset({2}), frozenset({3}), frozenset({9}), frozenset({2, 3}), frozenset({7}), frozenset([32, 3, 11]), frozenset([32, 2]), 1 + 2j, 3 + 4j, 5j]
     for x in universe:
         hist.add(x, _doApply=True)
     for x in universe:
